@@ -33,6 +33,37 @@ CHECKS = {
          "Every (area, width, access-state, wait field, DRAM select, kind, count, address position) tuple is evaluated through calc_state and calc_state_with_addr and compared with a 10-line transcription of the stated rule; each tuple is repeated under all-zero, all-one, random and one-bit-flipped settings of the other areas.", "2 C19"),
  "C20": ("differential testing of the returned state count against the manual's advanced-mode cycle table x cost rule, every instruction form x placement x bus settings constructed to make every area's cost distinct",
          "For every implemented form the charge returned by a single step must equal sum(count x cost(kind, address actually accessed)) with counts from an independently transcribed cycle table; settings are constructed so that on-chip RAM, area 0 and area 2 differ for byte and word cycles, otherwise a wrong kind/count/address is invisible (the reason the unit tests cannot see it).", "2 C20"),
+ "C10": ("model-based history testing: proptest-generated guest programs (main + handlers) x injection schedules, driven in the run loop's poll/step order in lockstep with a reference model; pending-multiset invariant, exactly-once counters, metamorphic comparison with the interrupt-free run",
+         "Programs with handlers that count their own invocations are run with up to 64 scheduled requests (bursts, requests while masked, nested handlers). Every entry must be legal (I clear, vector pending), every instruction equals the reference step, at the end nothing is pending and each handler ran exactly as often as requested, and the program's result equals the run without interrupts.", "2 C10"),
+ "C11": ("round-trip / inverse testing: proptest-generated ELF32-BE specs rendered by the harness's builder (the inverse of the loader), loaded by the real elf::load, DRAM compared with the spec",
+         "The generated spec is the expected image: segment bytes at base+vaddr, zeros where not file-backed, GOT words relocated exactly once, nothing outside the image. Layouts cover unordered/unaligned file offsets, interleaved non-load headers, shuffled sections, GOT anywhere in a file-backed extent, carries into the top byte.", "2 C11"),
+ "C12": ("property testing of the loader's start environment on generated ELF layouts, stack sizes, symbol tables and argument strings; oracle = interval arithmetic on the observed pointers computed from the statement",
+         "After elf::load the registers and the DRAM above the image are checked against the statement: ER2/ER5/ER7 relations, argc/argv with byte-exact NUL-terminated strings (words recovered by an independent splitter), all blocks inside DRAM above stack+TCB and pairwise disjoint, image intact, exit address from ___exit at any symbol index.", "2 C12"),
+ "C13": ("differential testing of whole executions: the real Cpu::run() against the statement's accounting re-implemented over single steps, in lockstep with the reference model; repeated runs (also under CPU contention) must be byte-identical",
+         "Generated ELF programs (delay loops around the sync thresholds, port writes, console output, timer with interrupt handler, slow-bus prologue, failing endings) are run through the real run loop with all messages captured; final registers, all memory regions (incl. timer/port registers = what peripherals saw), the cumulative state count and the exact message sequence must equal the stepped re-implementation of the statement; success iff no failing instruction; re-runs under host load are identical.", "2 C13"),
+ "C14": ("differential testing of TRAPA #0 single steps against the reference (full state + emitted messages), generated call sequences in lockstep incl. set_handler followed by an interrupt, and comparison of the captured console stream",
+         "Write calls with buffers/argument blocks anywhere in RAM/DRAM, lengths 0-4096 and adversarial valid UTF-8 must emit exactly one stdout message with identical bytes and leave registers, CCR and memory unchanged; set_handler is tested for every vector number 0-255 and verified through a later interrupt of that vector; other call numbers must fail; the process's console is captured and compared with the concatenation of the buffers.", "2 C14"),
+ "C15": ("fuzz-style generated-input search with a panic oracle (catch_unwind + panic hook) in two build profiles: adversarial single steps from every region edge, short programs and fuzzed control-line batches through the real run loop",
+         "Any panic is a violation; Ok and Err are both acceptable. The harness is built twice (release; overflow-checks + debug-assertions) because several defects are panics in one arithmetic mode and silent wrap-around in the other; the verdict is the union. A logger at the binary's default level is installed so that log-argument arithmetic is evaluated as in the real program.", "2 C15"),
+ "C16": ("bounded-exhaustive enumeration (all histories to depth 4-6 over a covering value set, per port) + proptest-generated long histories against the latch/direction/pins model of the statement, incl. writes by real instructions and control lines",
+         "After every step DR of all 11 ports must read (L&D)|(P&~D), output changes must be announced by an ioport message with the right port, value and time stamp, and other ports must be unaffected. The depth-bounded space per port is enumerated completely.", "2 C16"),
+ "C17": ("model-based history testing with an existential-phase tick model and a metamorphic partition relation (same elapsed time split differently)",
+         "Histories of elapse steps and register writes run on the real timer (through the run loop's update_modules hook); a tick-by-tick reference keeps the set of phases 0 <= p < divisor that explain every observed TCNT/TCSR/interrupt multiset so far - an empty set is a violation (lost, gained or bunched ticks, residue carried across a clock change). Each history is re-run with a different partition of the same elapsed time and both must agree at every write.", "2 C17"),
+ "C18": ("model-based testing of line sequences under three delivery schedules (one deterministic batch, trickle, random bursts) against a reference interpreter, plus round-trip testing of the outgoing framing over a real TCP connection",
+         "Generated sequences of well-formed and malformed lines are delivered to a running guest; final memory cells, pin levels, DDR/DR and the sequence of announced output changes must equal the reference interpreter for every schedule, and the final cmd:stop must end the run (watchdog: a stop that is not acted on is a lost line). Over TCP the wire bytes must split into one line per emitted message and unescape to the original text.", "2 C18"),
+}
+NOTES = {
+ "C09": "Trusted base: the five-interval predicate transcribed from the statement; rustc. Port DDR/DR are excluded (C16).",
+ "C10": "Trusted base: reference model (as C01-C08), the guest-program generator (handlers must be race-free by construction), the cfg-guarded hooks for poll/step/request. The emulator has no real asynchrony, so injection points between instructions are the whole schedule space.",
+ "C11": "Trusted base: the harness's ELF builder (the spec is the oracle); generated files are structurally valid by construction. Search, not proof.",
+ "C12": "Trusted base: the ELF builder and the statement's arithmetic re-implemented in the check. Search, not proof.",
+ "C13": "Trusted base: the stepped re-implementation of the statement's accounting, the hooks, the reference model. 'Independent of host speed' is sampled under CPU contention, never proved; no wall-clock value is asserted.",
+ "C14": "Trusted base: reference model of the two MES calls; the per-vector GOT save word and the installed entry's top byte are masked. Console capture redirects file descriptor 1 of the check process.",
+ "C15": "Absence of panics is never established by search; the evidence lists what was exercised per class and profile. Aborts (stack overflow) would kill the check process: reported as exit 2.",
+ "C16": "Trusted base: the three-field port model written from the statement. Extra messages repeating the current value are allowed.",
+ "C17": "Trusted base: the tick model; both readings of 'cleared by the compare match' (same tick / next tick) are accepted; clock selections 4-7 are not generated.",
+ "C18": "Trusted base: the reference interpreter of the line protocol (hex fields = non-empty strings of hex digits that fit). Thread interleavings of the socket workers are sampled by the OS; the one-batch schedule is deterministic.",
+ "C19": "Trusted base: the 10-line cost function transcribed from the statement. Complete enumeration of the per-area tuple space; other areas' settings sampled + one-bit flips.",
 }
 ALL = ["C%02d" % i for i in range(1, 21)]
 manifest = {
@@ -64,7 +95,7 @@ for pid in ALL:
           "replay_cmd_template": "./check %s --replay {path}" % pid,
           "engine": "h8verif",
           "level_claimed": {"category": "exploration", "text": text, "design_ref": "DESIGN.md section " + ref},
-          "level_note": STEP_NOTE if len(CHECKS[pid]) == 3 else CHECKS[pid][3],
+          "level_note": NOTES.get(pid, STEP_NOTE),
           "technique": "property-based testing: " + tech,
         })
     else:
